@@ -78,6 +78,46 @@ def _base_object(e):
             return e
 
 
+def _staging_tables(u, fn, gname, recname):
+    """Locals of the hooks record type that a function fills member by member and then copies whole into the global table
+    (`global_hooks = selected;`), and uses for nothing else: the new table under construction.  Its contents are EFF3's
+    business (the installer's paths are simulated with both objects)."""
+    out = set()
+    for d in fn.locals():
+        if not (_is_hooks_type(u, d['ty'], recname) and u.ty(d['ty'])['c'] == 'record'):
+            continue
+        copied = False
+        other = False
+        par = fn.parents()
+        for x in fn.nodes():
+            if x.get('k') != 'ref' or x.get('d') != d['d']:
+                continue
+            p = par.get(x['id'])
+            while p is not None and p.get('k') == 'cast':
+                p = par.get(p['id'])
+            if p is None:
+                other = True
+            elif p.get('k') == 'mem' and strip_casts(p['b']) is x:
+                # member access: a store target or a comparison operand
+                q = par.get(p['id'])
+                while q is not None and q.get('k') == 'cast':
+                    q = par.get(q['id'])
+                if q is not None and q.get('k') == 'bin' and (q['op'] in ASSIGN_OPS and strip_casts(q['l']) is p or q['op'] in ('==', '!=')):
+                    continue
+                other = True
+            elif p.get('k') == 'bin' and p['op'] == '=' and strip_casts(p['r']) is x:
+                l = strip_casts(p['l'])
+                if l.get('k') == 'ref' and l['n'] == gname and l.get('dk') == 'global':
+                    copied = True
+                else:
+                    other = True
+            else:
+                other = True
+        if copied and not other:
+            out.add(d['n'])
+    return out
+
+
 def eff1(units, R):
     """C-library allocator referenced only as a stored/compared default of the hooks table."""
     hooks = _hooks_record(units)
@@ -124,6 +164,10 @@ def eff1(units, R):
                                 and x['n'] in DEFAULT_ALLOC:
                             ok = True
                             why = 'stored as default into %s' % expr_str(p['l'])
+                        elif b.get('k') == 'ref' and b.get('dk') == 'local' and x['n'] in DEFAULT_ALLOC and \
+                                b['n'] in _staging_tables(u, fn, hooks[0][0]['n'], hooks[0][1]['name']):
+                            ok = True
+                            why = 'stored as default into %s, the table under construction that is then installed as a whole' % expr_str(p['l'])
                     elif p['op'] in ('==', '!='):
                         ok = True
                         why = 'compared only: %s' % expr_str(p)
@@ -201,6 +245,17 @@ def eff1_ir(ir, R):
                 elif s.startswith('store ') and 'internal_hooks' in s and uname == 'cJSON.c':
                     R.ob('EFF1-IR', cur, None, 'IR store of @%s into the hooks table' % a, True,
                          'store to %struct.internal_hooks member', key='irstore:%s' % a, file=uname, line=0)
+                elif s.startswith('store ') and uname == 'cJSON.c' and re.search(r', [^,]*\* (%[\w.]+), align', s):
+                    # store through a pointer register: fine when that register is a member address of a hooks table
+                    reg = re.search(r', [^,]*\* (%[\w.]+), align', s).group(1)
+                    start = ln - 1
+                    while start > 0 and not lines[start].startswith('define '):
+                        start -= 1
+                    defn = [l2 for l2 in lines[start:ln] if l2.strip().startswith(reg + ' = ')]
+                    ok = bool(defn) and 'getelementptr' in defn[-1] and 'internal_hooks' in defn[-1]
+                    R.ob('EFF1-IR', cur, None, 'IR store of @%s into a hooks table' % a, ok,
+                         'store to a member of a %%struct.internal_hooks object (%s)' % reg if ok else s[:100],
+                         key='irstore:%s' % a, file=uname, line=0)
                 elif ' icmp ' in s:
                     R.ob('EFF1-IR', cur, None, 'IR comparison with @%s' % a, True, 'icmp only',
                          key='ircmp:%s' % a, file=uname, line=0)
@@ -279,9 +334,14 @@ def eff2(units, R):
         for x in fn.nodes():
             if x.get('k') == 'bin' and x['op'] in ASSIGN_OPS:
                 lhs = strip_casts(x['l'])
+                staging = _staging_tables(u, fn, gname, recname)
                 if _is_hooks_type(u, lhs['ty'], recname) and u.ty(lhs['ty'])['c'] == 'record':
                     nstores += 1
                     why = hooks_value_ok(fn, x['r'])
+                    r0 = strip_casts(x['r'])
+                    if why is None and r0.get('k') == 'ref' and r0.get('dk') == 'local' and r0['n'] in staging and \
+                            lhs.get('k') == 'ref' and lhs['n'] == gname:
+                        why = 'the table assembled in %s (contents checked by EFF3)' % r0['n']
                     R.ob('EFF2', fn, x, 'hooks copy %s' % expr_str(x), why is not None,
                          ('copied from ' + why) if why else 'right-hand side is not the global table',
                          key='hookcopy:' + expr_str(x))
@@ -292,15 +352,20 @@ def eff2(units, R):
                         and strip_casts(lhs['b']) is b
                     if not isglobal:
                         nstores += 1
-                        R.ob('EFF2', fn, x, 'store to member of a hooks copy: %s' % expr_str(x), False,
+                        okm = b.get('k') == 'ref' and b.get('dk') == 'local' and b['n'] in staging
+                        R.ob('EFF2', fn, x, 'store to member of a hooks copy: %s' % expr_str(x), okm,
+                             'member of the table under construction that is installed as a whole' if okm else
                              'only the global table may be assigned member-wise', key='hookmember:' + expr_str(x['l']))
             if x.get('k') == 'decl':
                 for d in x['decls']:
                     if _is_hooks_type(u, d['ty'], recname) and u.ty(d['ty'])['c'] == 'record':
                         nstores += 1
                         ok = 'init' in d and hooks_value_ok(fn, d['init']) is not None
+                        stg = d['n'] in _staging_tables(u, fn, gname, recname)
+                        ok = ok or stg
                         R.ob('EFF2', fn, x, 'local hooks object %s' % d['n'], ok,
-                             'initialised from the global table' if ok else 'local hooks table not copied from the global one',
+                             ('the table under construction, installed as a whole' if stg else 'initialised from the global table') if ok
+                             else 'local hooks table not copied from the global one',
                              key='hooklocal:' + d['n'])
     # embedded hooks members of local aggregates must be assigned before a callee can use them:
     # for each function that declares a local record containing a hooks member, a whole-record copy
@@ -469,22 +534,34 @@ def eff3(units, R):
                     if b.get('k') == 'ref' and b['n'] == gname and b.get('dk') == 'global':
                         if fn not in writers:
                             writers.append(fn)
+                if l.get('k') == 'ref' and l['n'] == gname and l.get('dk') == 'global' and fn not in writers:
+                    writers.append(fn)       # the whole table is assigned (from a table assembled locally)
     R.floor('EFF3', 'functions installing hooks', len(writers), 1)
     for fn in writers:
         cfg = fn.cfg()
         paths = _enumerate_paths(cfg)
         hp = [p for p in fn.params if u.ty(p['ty'])['c'] == 'ptr']
         npaths = 0
+        staging = _staging_tables(u, fn, gname, rec['name'])
         for path in paths:
             npaths += 1
-            st = {f: ('entry', None) for f in fieldnames}  # abstract value of each member
+            st = {f: ('entry', None) for f in fieldnames}  # abstract value of each member of the global table
+            side = {name: {f: ('entry', None) for f in fieldnames} for name in staging}   # tables under construction
             facts = []   # (expr_str, 'nonnull'|'null')
             feasible = True
             for (nid, label) in path:
                 n = cfg.nodes[nid]
                 if n.kind == 'stmt' and n.expr.get('k') == 'bin' and n.expr['op'] == '=':
                     l = strip_casts(n.expr['l'])
+                    if l.get('k') == 'ref' and l['n'] == gname and strip_casts(n.expr['r']).get('n') in side:
+                        st = dict(side[strip_casts(n.expr['r'])['n']])     # global_hooks = selected;
+                        continue
+                    tgt = None
                     if l.get('k') == 'mem' and l['f'] in fieldnames and strip_casts(l['b']).get('n') == gname:
+                        tgt = st
+                    elif l.get('k') == 'mem' and l['f'] in fieldnames and strip_casts(l['b']).get('n') in side:
+                        tgt = side[strip_casts(l['b'])['n']]
+                    if tgt is not None:
                         r = strip_casts(n.expr['r'])
                         # `x != NULL ? x : default`: the arm this path selected (its condition was a branch on the way)
                         while r.get('k') == 'cond':
@@ -506,13 +583,13 @@ def eff3(units, R):
                             else:
                                 break
                         if r.get('k') == 'ref' and r.get('dk') == 'fn':
-                            st[l['f']] = ('libc', r['n'])
+                            tgt[l['f']] = ('libc', r['n'])
                         elif is_null_const(n.expr['r']):
-                            st[l['f']] = ('null', None)
+                            tgt[l['f']] = ('null', None)
                         else:
                             s = expr_str(r)
                             nonnull = (s, 'nonnull') in facts
-                            st[l['f']] = ('user', s, nonnull)
+                            tgt[l['f']] = ('user', s, nonnull)
                 if n.kind == 'branch' and label:
                     e = strip_casts(n.expr)
                     pol = label[0] == 'T'
@@ -532,14 +609,15 @@ def eff3(units, R):
                             # member of the table compared with a libc function
                             m, f = (lhs, rhs) if lhs.get('k') == 'mem' else (rhs, lhs)
                             if m.get('k') == 'mem' and m['f'] in fieldnames and f.get('k') == 'ref' and f.get('dk') == 'fn':
-                                cur = st[m['f']]
+                                obj = side.get(strip_casts(m['b']).get('n'), st) if strip_casts(m['b']).get('n') != gname else st
+                                cur = obj[m['f']]
                                 if cur[0] == 'libc':
                                     if (cur[1] == f['n']) != eq:
                                         feasible = False
                                         break
                                 elif eq:
                                     # a user function equal to the libc one *is* the libc one
-                                    st[m['f']] = ('libc', f['n'])
+                                    obj[m['f']] = ('libc', f['n'])
             if not feasible:
                 continue
             ra = st[re_f]
@@ -840,7 +918,7 @@ def eff4_ir(ir, units, R):
                     ok = pol is not None and cur in pol[1]
                     R.ob('EFF4-IR', cur, None, 'IR memcpy into @%s' % gname, ok, 'in %s' % cur,
                          key='irmemcpy:%s:%s' % (gname, cur), file=uname, line=0)
-    R.floor('EFF4-IR', 'IR stores into mutable globals', nst, 6)
+    R.floor('EFF4-IR', 'IR stores into mutable globals', nst, 2)
 
 
 def eff5(units, R):
